@@ -32,6 +32,10 @@ def branch_symbol_count(s):
     return s.count("Branch")
 
 
+class AbortWorkload(Exception):
+    """Enough step-bound violations were seen; the rest of the workload would only burn time."""
+
+
 class Totality(object):
     def __init__(self, ctx, which):
         self.ctx = ctx
@@ -61,7 +65,9 @@ class Totality(object):
         del MON.match_log[:]
         n = len(x)
         self.steps.count = 0
-        self.steps.limit = step_bound(n) if self.steplimit_hits < 5 else None
+        if self.steplimit_hits >= 4:
+            raise AbortWorkload("step bound exceeded %d times" % self.steplimit_hits)
+        self.steps.limit = step_bound(n)
         try:
             r = call_guard(fn, expected=self.expected)
         except StepLimit:
